@@ -237,8 +237,10 @@ impl AssemblyContext {
         proc: &Procedure,
         inlined: bool,
     ) -> Result<(), AssemblyError> {
-        // non-inlined calls (i.e., `call` instructions) cannot be executed in a kernel
-        if self.is_kernel && !inlined {
+        // non-inlined calls (i.e., `call` instructions) cannot be executed in a kernel; this also
+        // applies to calls made by an inlined procedure which was compiled outside of the kernel
+        // context (e.g., by an earlier program) and, thus, has a non-empty callset
+        if self.is_kernel && (!inlined || !proc.callset().is_empty()) {
             let proc_name = &self.current_proc_context().expect("no procedure").name;
             return Err(AssemblyError::call_in_kernel(proc_name));
         }
